@@ -202,6 +202,11 @@ def build_method(repo):
             if isinstance(n, ast.Assign) and any(is_self_attr(t, "_compiled") for t in n.targets):
                 if isinstance(n.value, ast.Constant) and n.value.value is True:
                     return True
+            # parallel assignment: `old, self._compiled = self._compiled, True`
+            if isinstance(n, ast.Assign) and len(n.targets) == 1 and isinstance(n.targets[0], ast.Tuple) and isinstance(n.value, ast.Tuple) and len(n.targets[0].elts) == len(n.value.elts):
+                for t, v in zip(n.targets[0].elts, n.value.elts):
+                    if is_self_attr(t, "_compiled") and isinstance(v, ast.Constant) and v.value is True:
+                        return True
         return False
 
     return _one([m for m in oc.methods.values() if ok(m)], "build method (sets _compiled = True)")
